@@ -15,12 +15,12 @@ RULE = ('data sets: all ordered tuples of distinct lattice points (Q: 1-D {0..5}
         '1-D n=5 rotations; T: 1-D {0..6} n<=5, 2-D 3x3 n<=4) x metrics {euclidean, manhattan, callable '
         'chebyshev, callable squared-euclidean} x dtypes {f8,f4,i8,i4} x entry points {kcenters, KCenters, '
         'kcenters+init_centers, kmedoids cold/warm(inds|state|traj-frame pairs), KMedoids, hybrid, KHybrid} x '
-        'every k, every radius from the data, sweeps 0..3, seeds {s,s+1,s+2}; state = (data, metric, dtype, '
+        'every k in 1..n+2 (more clusters than frames included), every radius from the data, sweeps 0..3, seeds {s,s+1,s+2}; state = (data, metric, dtype, '
         'entry, params); non-trivial = result with >=2 centers and >=1 non-center frame')
 ASSUMPTIONS = ['small-scope: <=5 frames on integer lattices (distances exact in float64)',
                'oracle distances computed by NumPy in float64; equality tolerance 1e-9',
                'seed alphabet {s,s+1,s+2}: clauses must hold for every seed, none is compared to a stored value']
-GUARDS = {'pam_accept': 200, 'pam_reject': 200, 'radius_stop': 200, 'warm_pairs': 200, 'init_centers': 200,
+GUARDS = {'more_clusters_than_frames': 200, 'pam_accept': 200, 'pam_reject': 200, 'radius_stop': 200, 'warm_pairs': 200, 'init_centers': 200,
           'callable_metric': 200, 'int_dtype': 200}
 
 METRICS = ('euclidean', 'manhattan', 'chebyshev', 'sqeuclid')
@@ -75,7 +75,7 @@ def flat_to_pair(idx, lengths):
 def entries(n, D, full, seed):
     """Enumerate (entry, params) for a data set of n frames. `full`=all variants."""
     radii = sorted(set(np.round(D[np.triu_indices(n, 1)], 12))) if n > 1 else []
-    for k in range(1, n + 1):
+    for k in range(1, n + 3):       # k = n+1, n+2: more clusters requested than frames exist
         yield ('kcenters_k', {'k': k})
         yield ('KCenters_k', {'k': k})
     for r in radii:
@@ -100,6 +100,9 @@ def entries(n, D, full, seed):
             for s in seeds if it else seeds[:1]:
                 yield ('hybrid_k', {'k': k, 'seed': s, 'iters': it})
         yield ('KHybrid_k', {'k': k, 'seed': seeds[0], 'iters': 2})
+    for k in (n + 1, n + 2):
+        yield ('hybrid_k', {'k': k, 'seed': seeds[0], 'iters': 0})
+        yield ('KHybrid_k', {'k': k, 'seed': seeds[0], 'iters': 0})
     for r in radii[:3]:
         yield ('hybrid_r', {'r': float(r), 'seed': seeds[0], 'iters': 2})
         yield ('KHybrid_r', {'r': float(r), 'seed': seeds[1], 'iters': 1})
@@ -208,6 +211,9 @@ def check_case(case, ctx):
     before = None
     want_k = p.get('k') if entry in ('kcenters_k', 'KCenters_k', 'kcenters_init', 'kmedoids_cold',
                                      'hybrid_k', 'KHybrid_k') else (len(p['inds']) if 'inds' in p else None)
+    if want_k is not None and want_k > n:
+        want_k = n          # distinct frames: the radius reaches 0 with n centers
+        ctx.guard('more_clusters_than_frames')
     bad = cr.check_result(X0, D, res, want_k)
     k = len(res.center_indices)
     ctx.state(key, nontrivial=(k >= 2 and n > k))
